@@ -143,6 +143,8 @@ def run(ctx):
             s.add("S-DOM", fn, "differ-edge", desc, sp, PROVED,
                   "the 'authors differ' outcome reaches no destructive call", e.src)
     ctx.instances["C10.differ-edges"] = len(ne_edges)
+    from . import lifecycle
+    lifecycle.all_tags_examined(ctx, s)
     # the error leaves store_event without committing (shared with C12)
     txn.error_paths_do_not_commit(ctx, s, "pocket_db::Store::store_event")
     txn.effects_use_callers_txn(ctx, s, "pocket_db::Store::store_event", only_under=HANDLER)
